@@ -382,8 +382,46 @@ def mixed_modes(ctx, n):
                               dict(det, problems=problems))
 
 
+def empty_structures(ctx):
+    """A structure without members has size 0 and goes anywhere: it changes neither the offsets of its neighbours nor
+    the position of the stream."""
+    import io
+
+    for align in (False, True):
+        for compiled in (True, False):
+            text = "struct e {};\nstruct o { uint32 a; e x; uint8 b; };\nstruct p { uint8 n; char s[n]; e x; uint16 t; };"
+            ctx.evaluation(("empty-struct", align, compiled))
+            ctx.cell("empty-structures")
+            det = {"text": text, "align": align, "compiled": compiled, "workload": "empty-structures"}
+            try:
+                cs = lib.load(text, "<", align, compiled)
+                want_o = 8 if align else 5
+                fh = io.BytesIO(bytes(range(1, 65)))
+                fh.seek(8)
+                cs.e(fh)
+                pos_e = fh.tell()
+                fh.seek(0)
+                arr = cs.o[3](fh)
+                got = (len(cs.e), len(cs.o), pos_e, fh.tell(), [int(x.a) for x in arr], [int(x.b) for x in arr])
+                base = bytes(range(1, 65))
+                want = (0, want_o, 8, 3 * want_o, [int.from_bytes(base[i * want_o:i * want_o + 4], "little") for i in range(3)],
+                        [base[i * want_o + 4] for i in range(3)])
+                o = cs.p(b"\x01x\x00\x07\x00\x00" if align else b"\x01x\x07\x00")
+                got += (int(o.t), o.dumps())
+                want += (7, b"\x01x\x07\x00" if not align else b"\x01x\x07\x00")
+            except Exception as e:  # noqa: BLE001
+                ctx.violation("empty-struct", f"empty-structure-raises:{type(e).__name__}", dict(det, error=lib.exc_sig(e)))
+                continue
+            if got[:6] != want[:6]:
+                ctx.violation("empty-struct", "empty-structure-moves-the-stream-or-its-neighbours", dict(det, got=repr(got), want=repr(want)))
+            else:
+                ctx.event("empty_structures_checked")
+
+
 def run(ctx):
     mixed_modes(ctx, 10 if not ctx.thorough else 150)
+    if ctx.shard == 0:
+        empty_structures(ctx)
     cc = CCompilerOracle(ctx)
     for i in range(N_CASES[ctx.tier]):
         if ctx.out_of_time():
@@ -399,6 +437,9 @@ def run(ctx):
 
 
 def replay(ctx, detail):
+    if detail.get("workload") == "empty-structures":
+        empty_structures(ctx)
+        return
     if detail.get("workload") == "mixed-modes":
         print({k: v for k, v in detail.items()})
         mixed_modes(ctx, 150)
